@@ -87,6 +87,11 @@ def floors(tier):
     return {'compared': 1500, 'len:shadow_shapes': 25, 'negative_variants': 50, 'len:catalog_forms': 4}
 
 
+def ceilings(tier):
+    # fractions of all evaluations; the unchanged tree stays below about two thirds of each
+    return {'original_not_executable': 0.02, 'pushed_query_not_printable': 0.02, 'internal_error_is_C09': 0.01}
+
+
 def make_db(state, attached=True):
     """attached=True: the federation view (tables live in schema int1); attached=False: the integration's own view
     (tables in the main schema, no schema called int1 - a qualifier left in the pushed query fails there)."""
